@@ -23,7 +23,9 @@ type c09gen struct {
 	hot   []int
 	inv   bool
 	univ  []ops.Op
-	focus string // swarm: family of operations this run concentrates on ("" = none)
+	focus string  // swarm: family of operations this run concentrates on ("" = none)
+	dictP float64 // probability that a year comes from DictYears
+	wide  bool    // wide history: every operation draws a fresh year from the whole range
 }
 
 var focusKinds = map[string][]string{
@@ -38,6 +40,9 @@ var focusKinds = map[string][]string{
 
 func (g *c09gen) year() int {
 	r := g.r
+	if len(DictYears) > 0 && r.Chance(g.dictP) {
+		return DictYears[r.Intn(len(DictYears))]
+	}
 	switch r.Weighted([]int{55, 15, 10, 12, 8}) {
 	case 0:
 		return r.Range(1900, 2100)
@@ -76,6 +81,12 @@ func (g *c09gen) hotYear() int {
 }
 
 func (g *c09gen) anyYear() int {
+	if g.wide {
+		if g.r.Chance(0.35) {
+			return g.r.Range(1, 9998)
+		}
+		return clampYear(g.year())
+	}
 	if g.r.Chance(0.75) {
 		return g.hotYear()
 	}
@@ -278,6 +289,19 @@ func (g *c09gen) add(op ops.Op) int {
 // wrap chooses how heavily the result of op is digested.
 func (g *c09gen) wrap(op ops.Op) ops.Op {
 	r := g.r
+	if g.wide {
+		if r.Chance(0.45) {
+			// minimal digest (String() only): the call itself is the only library work, so the NEXT call meets
+			// exactly the state this one left behind
+			op.D = -1
+			return op
+		}
+		if op.K == "lyear" || op.K == "lmonth" || op.K == "lmonth_next" || op.K == "lyear_next" {
+			return op // full digest of a year / month object is cheap and shows the whole table
+		}
+		inner := op
+		return ops.Op{K: "sub", Sub: &inner, Acc: r.U64() >> 1, N: r.Range(6, 16)}
+	}
 	switch r.Weighted([]int{5, 30, 65}) {
 	case 0:
 		if op.K != "yun" {
@@ -292,20 +316,33 @@ func (g *c09gen) wrap(op ops.Op) ops.Op {
 	}
 }
 
+// DictYears are integer constants between 1 and 9999 found in the library's own tables (leap-month tables and the
+// like): the years at which the code itself behaves specially. The driver extracts them from /repo's working tree.
+var DictYears []int
+
 // Tier is set by the driver; the thorough tier also draws larger runs (more tasks, longer scripts).
 var Tier = "quick"
 
 // C09 generates run number `run` of the C09 check.
 func C09(seed uint64, run int) *spec.Spec {
 	r := NewRng(seed, 9, run)
-	g := &c09gen{r: r}
+	g := &c09gen{r: r, dictP: 0.08}
 	s := &spec.Spec{V: 1, Property: "C09", Seed: seed, Run: run}
 	kind := r.Weighted([]int{25, 30, 45}) // seq history | multi-task | multi-task with faults
+	if r.Chance(0.10) {
+		// wide history: one caller, many cheap year-table / month / date constructions over the whole year range,
+		// a third of the years taken from the library's own tables
+		kind = 0
+		g.wide = true
+		g.dictP = 0.6
+	}
 	nHot := r.Range(1, 3)
 	for i := 0; i < nHot; i++ {
 		g.hot = append(g.hot, clampYear(g.year()))
 	}
-	if r.Chance(0.5) {
+	if g.wide {
+		g.focus = r.PickS([]string{"lyear", "lyear", "lmonth", "lunar"})
+	} else if r.Chance(0.5) {
 		g.focus = r.PickS([]string{"lmonth", "lyear", "lunar", "solar", "holiday", "nav", "fortune", "lmonth", "lyear", "lunar", "solar"})
 		if r.Chance(0.6) {
 			g.hot = g.hot[:1]
@@ -345,6 +382,9 @@ func C09(seed uint64, run int) *spec.Spec {
 	if g.focus != "" {
 		nUniv = r.Range(10, 24)
 	}
+	if g.wide {
+		nUniv = r.Range(30, 60)
+	}
 	for i := 0; i < nUniv; i++ {
 		g.add(g.wrap(g.baseOp()))
 	}
@@ -352,6 +392,9 @@ func C09(seed uint64, run int) *spec.Spec {
 		n := r.Range(2, 7)
 		if kind == 0 {
 			n = r.Range(3, 12)
+		}
+		if g.wide {
+			n = nUniv
 		}
 		if big {
 			n = r.Range(6, 14)
@@ -362,6 +405,9 @@ func C09(seed uint64, run int) *spec.Spec {
 		var task spec.Task
 		for i := 0; i < n; i++ {
 			u := r.Intn(nUniv)
+			if g.wide {
+				u = i
+			}
 			task.Ops = append(task.Ops, spec.Step{U: &u})
 		}
 		s.Tasks = append(s.Tasks, task)
@@ -471,6 +517,23 @@ func C09(seed uint64, run int) *spec.Spec {
 			st := spec.Step{U: &u, Fault: "invalid_panic"}
 			o := s.Tasks[t].Ops
 			s.Tasks[t].Ops = append(o[:pos:pos], append([]spec.Step{st}, o[pos:]...)...)
+			// the same rejected call from other callers at about the same point of their scripts: invalid input
+			// meets invalid input (e.g. two callers inside the same failing computation)
+			if nTasks > 1 && r.Chance(0.45) {
+				for t2 := 0; t2 < nTasks; t2++ {
+					if t2 == t || r.Chance(0.4) {
+						continue
+					}
+					p2 := pos
+					if p2 > len(s.Tasks[t2].Ops) {
+						p2 = len(s.Tasks[t2].Ops)
+					}
+					u2 := u
+					st2 := spec.Step{U: &u2, Fault: "invalid_panic"}
+					o2 := s.Tasks[t2].Ops
+					s.Tasks[t2].Ops = append(o2[:p2:p2], append([]spec.Step{st2}, o2[p2:]...)...)
+				}
+			}
 		}
 	}
 	// fault: evictor task hammering the one-slot cache with cold years
